@@ -111,7 +111,7 @@ pub fn main(args: &[String]) -> i32 {
         let (tx, rx) = mpsc::channel();
         let cc = c.clone();
         let handle = std::thread::Builder::new().stack_size(1024 * 1024 * 1024).spawn(move || {
-            let r = crate::util::guarded(|| run_one(&cc));
+            let r = crate::util::guarded(|| run_one(&cc)).map_err(|m| (m, crate::util::last_panic_location()));
             let _ = tx.send(r);
         });
         let mut rec = json!({"id": c["id"], "mode": c["mode"], "generator": c["generator"], "rules": c["rules"], "label": c["label"]});
@@ -125,10 +125,11 @@ pub fn main(args: &[String]) -> i32 {
                     let _ = h.join();
                     rec["events"] = json!(events);
                 }
-                Ok(Err(p)) => {
+                Ok(Err((p, loc))) => {
                     let _ = h.join();
                     rec["events"] = json!(["panic"]);
                     rec["msg"] = json!(p.chars().take(200).collect::<String>());
+                    rec["loc"] = json!(loc);
                 }
                 Err(_) => {
                     // the worker is stuck: report and stop; the caller restarts after this case
